@@ -62,6 +62,7 @@ Needles  == {PathText(p, Delim) : p \in Paths} \cup SeqsUpTo(RawChars, 0, RawLen
 DenotedBy      == [p \in Paths |-> SuffixTexts(p, Delim)]
 Denotes(needleText, p) == needleText \in DenotedBy[p]
 ASSUME \A nd \in Needles : \A p \in Paths : Denotes(nd, p) <=> MatchStr(nd, p, Delim)
+ASSUME \A p \in Paths : SuffixTextsFast(p, Delim) = SuffixTexts(p, Delim)
 
 SpecGet(needleText, C) ==
     {C[i][2] : i \in {j \in 1..Len(C) : Denotes(needleText, C[j][1])}}
